@@ -27,13 +27,14 @@ Bit(b) == IF b THEN 1 ELSE 0
 TInit == /\ thr = Trace[1].thr
          /\ attrs = << <<>> >> /\ parent = <<0>> /\ sl = <<NilSlice>> /\ heap = <<>>
          /\ recs = <<>> /\ rheap = <<>> /\ item = [large |-> FALSE, bound |-> TRUE] /\ panics = 0
-         /\ armed = 0 /\ nfaults = 0 /\ encErr = FALSE /\ locked = FALSE /\ rets = <<>>
+         /\ armed = <<0>> /\ nfaults = 0 /\ encErr = <<FALSE>> /\ locked = <<FALSE>> /\ rets = <<>>
+         /\ tree = <<1>> /\ twriter = <<1>> /\ nextctx = 0
          /\ cell = 0 /\ frozen = << <<>> >>
          /\ out = <<>> /\ ngroups = 0 /\ steps = 0
          /\ l = 1
 
 TNew == /\ Ev.op = "new" /\ l = 1 /\ Ev.thr = thr
-        /\ UNCHANGED <<thr, attrs, parent, sl, heap, recs, rheap, item, panics, armed, nfaults, encErr, locked, cell, frozen, rets, out, ngroups>>
+        /\ UNCHANGED <<thr, attrs, parent, sl, heap, recs, rheap, item, panics, armed, nfaults, encErr, locked, cell, frozen, tree, twriter, nextctx, rets, out, ngroups>>
 
 TDerive == /\ Ev.op = "derive"
            /\ Ev.new = NumH + 1
@@ -59,11 +60,11 @@ TRelog == /\ Ev.op = "relog"
 TEnabled == /\ Ev.op = "enabled"
             /\ Ev.h \in Handlers
             /\ Ev.res = Bit(IsEnabled(Ev.lv))
-            /\ UNCHANGED <<thr, attrs, parent, sl, heap, recs, rheap, item, panics, armed, nfaults, encErr, locked, cell, frozen, rets, out, ngroups>>
+            /\ UNCHANGED <<thr, attrs, parent, sl, heap, recs, rheap, item, panics, armed, nfaults, encErr, locked, cell, frozen, tree, twriter, nextctx, rets, out, ngroups>>
 
 TCut == /\ Ev.op = "cut"
         /\ out' = <<>>
-        /\ UNCHANGED <<thr, attrs, parent, sl, heap, recs, rheap, item, panics, armed, nfaults, encErr, locked, cell, frozen, rets, ngroups>>
+        /\ UNCHANGED <<thr, attrs, parent, sl, heap, recs, rheap, item, panics, armed, nfaults, encErr, locked, cell, frozen, tree, twriter, nextctx, rets, ngroups>>
 
 TNext == /\ l <= Len(Trace)
          /\ l' = l + 1
